@@ -835,6 +835,11 @@ def apply_rules(text, rules, log, fn):
     text, kad = sub(text, r"\.\s*as_deref\(\)", ".as_ref()", count=-1, name="R10d")
     if kad:
         log["R10d-as_deref"] = log.get("R10d-as_deref", 0) + kad
+    # struct update from the trait's default: `..Default::default()` is `..Self::default()` for a literal of the impl's own type; the
+    # template's types have no trait impls, their `default` is an inherent function under contract (or missing -> compile error -> exit 2)
+    text, kdf = sub(text, r"\.\.\s*(?:std::default::|core::default::)?Default::default\(\)", "..Self::default()", count=-1, name="R10s")
+    if kdf:
+        log["R10s-struct-update-default"] = log.get("R10s-struct-update-default", 0) + kdf
     text, k10m = r10_map_or(text)
     if k10m:
         log["R10m-map_or"] = log.get("R10m-map_or", 0) + k10m
